@@ -8,6 +8,7 @@ package interp
 import (
 	"fmt"
 	"go/types"
+	"os"
 	"sort"
 	"strings"
 
@@ -101,6 +102,7 @@ type Engine struct {
 	falseT     term.ID
 	Sentinels  []string // gv names that keep their own error class
 	focusCache map[term.ID]bool
+	plainMerge bool
 }
 
 type siteKey struct {
@@ -389,11 +391,45 @@ func (act *activation) fixpoint(start *alt) *result {
 						in = append(in, c)
 					}
 				}
-				k := act.e.K
 				if header[b] && passNo >= 3 {
-					k = 1
+					// forced convergence: one alternative per valuation of the
+					// constant boolean flags carried around the loop
+					groups := map[string][]*alt{}
+					var order []string
+					for _, x := range in {
+						g := groupKeyOf(act.e, b, x)
+						if _, ok := groups[g]; !ok {
+							order = append(order, g)
+						}
+						groups[g] = append(groups[g], x)
+					}
+					// plain intersection within a group, and with the group's
+					// previous state: order-independent and shrinking, so the
+					// iteration must reach a fixpoint
+					act.e.plainMerge = true
+					oldByGroup := map[string]*alt{}
+					for _, x := range inState[b] {
+						oldByGroup[groupKeyOf(act.e, b, x)] = x
+					}
+					in = nil
+					for _, g := range order {
+						xs := groups[g]
+						if o, ok := oldByGroup[g]; ok && passNo >= 4 {
+							xs = append(append([]*alt(nil), xs...), o)
+						}
+						in = append(in, act.e.join(xs, 1)...)
+					}
+					act.e.plainMerge = false
+				} else {
+					in = act.e.join(in, act.e.K)
 				}
-				in = act.e.join(in, k)
+			}
+			if debugLoops && header[b] {
+				var gs []string
+				for _, x := range in {
+					gs = append(gs, groupKeyOf(act.e, b, x))
+				}
+				fmt.Printf("LOOP %s block %d pass %d record=%v in=%d groups=%v\n", load.FuncKey(fn), b.Index, passNo, record, len(in), gs)
 			}
 			key := altsKey(act.e, in)
 			if !record {
@@ -504,13 +540,72 @@ func (act *activation) bindPhis(a *alt, b *ssa.BasicBlock, predIdx int, widen bo
 		}
 		phis = append(phis, phi)
 		if widen {
-			vals = append(vals, act.e.T.Mk(fmt.Sprintf("phi#%d", act.e.site(act.site, phi, 0))))
+			// loop-carried values are widened to an unknown, except boolean
+			// flags whose incoming value is a constant: path classes are kept
+			// apart by the value of such flags (finite domain, so this converges)
+			v := act.val(a, phi.Edges[predIdx])
+			if isBool(phi.Type()) && (v == act.e.trueT || v == act.e.falseT) {
+				vals = append(vals, v)
+			} else {
+				vals = append(vals, act.e.T.Mk(fmt.Sprintf("phi#%d", act.e.site(act.site, phi, 0))))
+			}
 		} else {
 			vals = append(vals, act.val(a, phi.Edges[predIdx]))
 		}
 	}
+	// back edge into a widened header: the symbol phi#N now names the value
+	// of the next iteration, so facts and memory that mention it (they are
+	// about the previous iteration) are forgotten
+	var stale []string
 	for i, phi := range phis {
+		if old, ok := a.frame[phi]; widen && ok && old == vals[i] && strings.HasPrefix(act.e.T.Op(vals[i]), "phi#") {
+			stale = append(stale, act.e.T.Op(vals[i]))
+		}
 		a.frame[phi] = vals[i]
+	}
+	if len(stale) > 0 {
+		T := act.e.T
+		memo := map[term.ID]bool{}
+		var mentions func(id term.ID) bool
+		mentions = func(id term.ID) bool {
+			if v, ok := memo[id]; ok {
+				return v
+			}
+			tm := T.Get(id)
+			r := false
+			for _, s := range stale {
+				if tm.Op == s {
+					r = true
+				}
+			}
+			if !r && T.Opaque(id) {
+				for _, x := range tm.Args {
+					if mentions(x) {
+						r = true
+						break
+					}
+				}
+			}
+			memo[id] = r
+			return r
+		}
+		kept := make(term.Set, 0, len(a.atoms))
+		for _, id := range a.atoms {
+			if !mentions(id) {
+				kept = append(kept, id)
+			}
+		}
+		a.atoms = kept
+		for k, cv := range a.cells {
+			if mentions(cv.val) {
+				a.cells[k] = cellVal{val: T.Mk(fmt.Sprintf("top#l%d", k)), escaped: cv.escaped}
+			}
+		}
+		for k, v := range a.heap {
+			if mentions(v) || mentions(k) {
+				delete(a.heap, k)
+			}
+		}
 	}
 }
 
@@ -670,6 +765,44 @@ func (e *Engine) generalise(a, b term.Set) term.Set {
 		}
 		out = out.Add(g)
 	}
+	// comparisons that share one operand: keep the comparison with the other
+	// operand generalised (e.g. timeout <= f(client) for two different clients)
+	cmpIdx := map[string][]term.ID{}
+	isCmp := func(op string) bool { return op == "eq" || op == "ne" || op == "lt" || op == "le" }
+	for _, id := range b {
+		tm := e.T.Get(id)
+		if out.Has(id) || !isCmp(tm.Op) {
+			continue
+		}
+		for pos := 0; pos < 2; pos++ {
+			k := fmt.Sprintf("%s|%d|%d", tm.Op, pos, tm.Args[pos])
+			cmpIdx[k] = append(cmpIdx[k], id)
+		}
+	}
+	if len(cmpIdx) > 0 {
+		for _, id := range a {
+			tm := e.T.Get(id)
+			if out.Has(id) || !isCmp(tm.Op) {
+				continue
+			}
+			for pos := 0; pos < 2; pos++ {
+				cands := cmpIdx[fmt.Sprintf("%s|%d|%d", tm.Op, pos, tm.Args[pos])]
+				if len(cands) != 1 {
+					continue
+				}
+				o := e.antiUnify(tm.Args[1-pos], e.T.Get(cands[0]).Args[1-pos], 0)
+				if strings.HasPrefix(e.T.Op(o), "top#") {
+					continue
+				}
+				if pos == 0 {
+					out = out.Add(e.T.Mk(tm.Op, tm.Args[0], o))
+				} else {
+					out = out.Add(e.T.Mk(tm.Op, o, tm.Args[1]))
+				}
+				break
+			}
+		}
+	}
 	return out
 }
 
@@ -736,8 +869,34 @@ func frameDisagreements(a, b *alt) int {
 	return n
 }
 
+var debugLoops = os.Getenv("VERIF_DEBUG_LOOPS") != ""
+
+// groupKeyOf is the valuation of the constant boolean phis of block b in x.
+func groupKeyOf(e *Engine, b *ssa.BasicBlock, x *alt) string {
+	var sb strings.Builder
+	for _, ins := range b.Instrs {
+		phi, ok := ins.(*ssa.Phi)
+		if !ok {
+			break
+		}
+		if v := x.frame[phi]; v == e.trueT {
+			sb.WriteByte('t')
+		} else if v == e.falseT {
+			sb.WriteByte('f')
+		} else {
+			sb.WriteByte('-')
+		}
+	}
+	return sb.String()
+}
+
 func (e *Engine) merge(a, b *alt) *alt {
-	n := &alt{atoms: e.generalise(a.atoms, b.atoms), impure: a.impure || b.impure}
+	n := &alt{impure: a.impure || b.impure}
+	if e.plainMerge {
+		n.atoms = a.atoms.Intersect(b.atoms)
+	} else {
+		n.atoms = e.generalise(a.atoms, b.atoms)
+	}
 	n.cells = map[int32]cellVal{}
 	for k, va := range a.cells {
 		if vb, ok := b.cells[k]; ok {
